@@ -33,6 +33,45 @@ def is_sub(small, big):
 
 
 # ------------------------------------------------------------------ oracles (property text on impl outputs)
+def oracle_c03_actions(ent, d):
+    """mask / lowercase / none against the trim run of the same command (implementation only): the bases that
+    trim keeps must be exactly the ones left alone (upper-cased for lowercase), everything else N / lower case"""
+    cfg, reads, res = ent["cfg"], ent["reads"], ent["impl"]
+    if cfg.action not in ("mask", "lowercase", "none") or not cfg.adapters:
+        return None
+    c2 = S.Cfg.from_json(cfg.to_json())
+    c2.action = "trim"
+    c2.info_file = False
+    # the stages after adapter trimming that cut the read are switched off in both runs: the comparison is about the adapter stage
+    c2.poly_a, c2.length, c2.trim_n, c2.demux = False, None, False, False
+    for k in ("min_len", "max_len", "max_n", "max_ee", "max_aer"):
+        setattr(c2, k, None)
+    for k in ("casava", "discard_trimmed", "discard_untrimmed", "untrimmed_output", "too_short_output", "too_long_output"):
+        setattr(c2, k, False)
+    c3 = S.Cfg.from_json(c2.to_json())
+    c3.action = cfg.action
+    a, b = S.run_impl(c2, reads, d), S.run_impl(c3, reads, d)
+    if a["exit"] != 0 or b["exit"] != 0:
+        return None
+    for (n1, t, tq), (n2, m, mq) in zip(a["files"].get(0, []), b["files"].get(0, [])):
+        if read_index(n1) != read_index(n2):
+            return None
+        if cfg.action == "none":
+            continue
+        ok = False
+        for k in range(len(m) - len(t) + 1):
+            if cfg.action == "mask":
+                exp = "N" * k + t + "N" * (len(m) - k - len(t))
+            else:
+                exp = m[:k].lower() + t.upper() + m[k + len(t):].lower()
+            if m == exp and (cfg.action == "mask" or m.upper()[k:k + len(t)] == t.upper()):
+                ok = True
+                break
+        if not ok:
+            return "action %s wrote %r although trim keeps %r: changes are not exactly outside the kept part" % (cfg.action, m, t)
+    return None
+
+
 def oracle_c03(ent):
     cfg, reads, res = ent["cfg"], ent["reads"], ent["impl"]
     by_idx = {i: r for i, r in enumerate(reads)}
@@ -88,8 +127,27 @@ def qual_ok(q, base_q, cfg):
     return q == base_q
 
 
-def oracle_c04(ent):
+def quality_trimmed_by_stages(cfg, reads, d):
+    """bases removed by NextSeq + quality trimming, measured on the implementation: run the cut stage alone,
+    then cut + NextSeq/quality, and add up the length differences"""
+    if cfg.qcut in (None, "0") and cfg.nextseq is None:
+        return None
+    c_cut = S.Cfg(fasta=cfg.fasta, qbase=cfg.qbase, cuts=cfg.cuts)
+    c_q = S.Cfg(fasta=cfg.fasta, qbase=cfg.qbase, cuts=cfg.cuts, qcut=cfg.qcut, nextseq=cfg.nextseq)
+    a = S.run_impl(c_cut, reads, d)
+    b = S.run_impl(c_q, reads, d)
+    if a["exit"] != 0 or b["exit"] != 0:
+        return None
+    return sum(len(s) for _, s, _ in a["files"].get(0, [])) - sum(len(s) for _, s, _ in b["files"].get(0, []))
+
+
+def oracle_c04(ent, d=None):
     cfg, reads, res = ent["cfg"], ent["reads"], ent["impl"]
+    if d is not None:
+        q = quality_trimmed_by_stages(cfg, reads, d)
+        got = res["report"]["basepair_counts"]["quality_trimmed"]
+        if q is not None and (got or 0) != q:
+            return "report says %r bp quality-trimmed, the quality-trimming stages removed %d" % (got, q)
     rep = res["report"]
     rc, bp = rep["read_counts"], rep["basepair_counts"]
     filt = {k: v for k, v in rc["filtered"].items() if v is not None}
@@ -213,7 +271,7 @@ def near_gt(x, thr):
 
 STAGE_KEYS = [
     ("cuts", ()), ("nextseq", None), ("qcut", None), ("adapters", ()), ("poly_a", False), ("length", None), ("trim_n", False),
-    ("length_tag", None), ("strip_suffix", ()), ("prefix_suffix", None), ("zero_cap", False),
+    ("length_tag", None), ("strip_suffix", ()), ("prefix_suffix", None), ("zero_cap", False), ("rename", None),
 ]
 
 
@@ -222,6 +280,8 @@ def oracle_c10(ent, d):
     cfg, reads = ent["cfg"], ent["reads"]
     if cfg.demux or cfg.revcomp and cfg.prefix.find("{name}") >= 0:
         return None
+    if cfg.rename is not None and cfg.revcomp:
+        return None  # with --rename the ' rc' name suffix is replaced by the {rc} placeholder: not composable from isolated runs
     cur = list(reads)
     names_suffix_rc = False
     for key, default in STAGE_KEYS:
@@ -568,8 +628,8 @@ def oracle_c09(ent):
 
 # ------------------------------------------------------------------ the check driver
 FOCUS = {
-    "C03": ("action", "cut", "qual", "length", "trimn", "adapters", "zerocap", "revcomp", "polya"),
-    "C04": ("filters", "adapters", "demux"),
+    "C03": ("action", "cut", "qual", "length", "trimn", "adapters", "zerocap", "revcomp", "polya", "times"),
+    "C04": ("filters", "adapters", "demux", "qual", "nextseq"),
     "C09": ("adapters", "times", "action", "info"),
     "C10": ("cut", "qual", "nextseq", "adapters", "polya", "length", "trimn", "names", "zerocap"),
     "C11": ("filters", "adapters"),
@@ -600,6 +660,10 @@ def adjust(pid, rng, cfg):
         if rng.random() < 0.4:
             cfg.error_rate = rng.choice([0.5, 0.7])
             cfg.overlap = rng.choice([3, 5])
+    if pid == "C10" and rng.random() < 0.3:
+        # renaming comes last; only placeholders that do not depend on earlier stages can be composed from isolated runs
+        cfg.rename = rng.choice(["{id}_x {comment}", "{header} extra", "{id}", "{id} {comment} tail"])
+        cfg.prefix = cfg.suffix = ""
     if pid == "C11":
         if rng.random() < 0.35 and not cfg.fasta:
             cfg.max_ee = rng.choice([0.5, 1.0, 2.5])
@@ -647,9 +711,9 @@ def run(ctx, pid):
             why = None
             try:
                 if pid == "C03":
-                    why = oracle_c03(ent)
+                    why = oracle_c03(ent) or oracle_c03_actions(ent, d)
                 elif pid == "C04":
-                    why = oracle_c04(ent)
+                    why = oracle_c04(ent, d)
                 elif pid == "C09":
                     why = oracle_c09(ent)
                 elif pid == "C10":
@@ -744,7 +808,7 @@ def replay(doc, pid):
         print("implementation exit", ent["impl"]["exit"], ent["impl"]["error"])
         return 1
     with S.Scratch() as d:
-        why = {"C03": lambda: oracle_c03(ent), "C04": lambda: oracle_c04(ent), "C10": lambda: oracle_c10(ent, d),
+        why = {"C03": lambda: oracle_c03(ent) or oracle_c03_actions(ent, d), "C04": lambda: oracle_c04(ent, d), "C10": lambda: oracle_c10(ent, d),
                "C09": lambda: oracle_c09(ent), "C11": lambda: oracle_c11(ent, d), "C15": lambda: oracle_c15(ent, d), "C16": lambda: oracle_c16(ent),
                "C17": lambda: oracle_c17(ent), "C20": lambda: oracle_c20(ent)}[pid]()
     print("argv", ent["impl"]["argv"][5:-1])
